@@ -89,6 +89,12 @@ type caseJ struct {
 	N    int    `json:"n,omitempty"`
 	W    int32  `json:"w,omitempty"`
 	Tag  string `json:"tag,omitempty"` // generator profile (histogram only)
+	// Own: what the caller does with the slice it handed to Refresh (the selector must own a copy):
+	// "garbage" (default) = every slot incl. the spare capacity is overwritten right after the call and the
+	// slice is re-sliced/appended to; "manager" = the caller keeps it as its own active list, deletes from
+	// it in place (append(s[:i], s[i+1:]...)) before each Remove and appends+sorts before each Add, as
+	// endpointmanager does with activeEp.
+	Own string `json:"own,omitempty"`
 }
 
 // ---------------------------------------------------------------------------------------------
@@ -213,17 +219,74 @@ func guard(f func()) (pc string, stack string) {
 	return "", ""
 }
 
+// ---- ownership of the slice handed to Refresh ------------------------------------------------
+// The selectors must not keep the caller's backing array: the caller goes on using its slice.
+
+const garbagePrefix = "zz-not-an-endpoint-"
+
+func garbageEp(i int) endpoint.Endpoint {
+	e := endpoint.Endpoint{Host: garbagePrefix + strconv.Itoa(i), Port: 1, Proto: "tcp", Weight: 1, WeightType: 1, Istcp: 1}
+	e.Key = e.String()
+	return e
+}
+
+func isGarbage(e endpoint.Endpoint) bool { return strings.HasPrefix(e.Host, garbagePrefix) }
+
+// refreshArg builds the argument of Refresh with spare capacity (the spare slots hold garbage).
+func refreshArg(eps []endpoint.Endpoint) []endpoint.Endpoint {
+	spare := 1 + len(eps)%3
+	in := make([]endpoint.Endpoint, len(eps), len(eps)+spare)
+	copy(in, eps)
+	full := in[:cap(in)]
+	for i := len(eps); i < len(full); i++ {
+		full[i] = garbageEp(i)
+	}
+	return in
+}
+
+// scribble: what a caller may do with ITS slice after Refresh returned: overwrite every slot
+// (spare capacity included), delete in place, append into the spare capacity.
+func scribble(in []endpoint.Endpoint) {
+	full := in[:cap(in)]
+	for i := range full {
+		full[i] = garbageEp(1000 + i)
+	}
+	if len(in) > 1 {
+		in = append(in[:0], in[1:]...)
+	}
+	in = append(in, garbageEp(2000))
+	_ = in
+}
+
+// callerDelete removes the endpoint of that host from the caller's own list, in place.
+func callerDelete(active []endpoint.Endpoint, host string) []endpoint.Endpoint {
+	for i := range active {
+		if active[i].Host == host {
+			return append(active[:i], active[i+1:]...)
+		}
+	}
+	return active
+}
+
 func runImplSeq(c caseJ) []stepRes {
 	s := newSelector(c.Sel, c.EW)
 	var out []stepRes
+	var active []endpoint.Endpoint // "manager": the caller's list, the very slice last handed to Refresh
+	manager := c.Own == "manager"
 	for _, op := range c.Ops {
 		switch op.K {
 		case "R":
-			in := make([]endpoint.Endpoint, len(op.Eps))
+			tmp := make([]endpoint.Endpoint, len(op.Eps))
 			for i, e := range op.Eps {
-				in[i] = e.ep()
+				tmp[i] = e.ep()
 			}
+			in := refreshArg(tmp)
 			pc, st := guard(func() { s.Refresh(in) })
+			if manager {
+				active = in
+			} else {
+				scribble(in)
+			}
 			r := stepRes{op: "R", tok: "ok", eps: op.Eps, stack: st}
 			if pc != "" {
 				r.tok = pc
@@ -233,6 +296,14 @@ func runImplSeq(c caseJ) []stepRes {
 		case "A", "D":
 			var err error
 			e := op.Eps[0].ep()
+			if manager { // the caller updates its own list first, in place, then tells the selector
+				if op.K == "D" {
+					active = callerDelete(active, e.Host)
+				} else if findHost(active, e.Host) < 0 {
+					active = append(active, e)
+					sort.Slice(active, func(i, j int) bool { return active[i].Host > active[j].Host })
+				}
+			}
 			pc, st := guard(func() {
 				if op.K == "A" {
 					err = s.Add(e)
@@ -581,6 +652,9 @@ func oracleSeq(c caseJ, rs []stepRes) *oracleViol {
 				if c.Sel == "conhash" && reweighted[r.ep.Host] {
 					locus = "consistenthash.Remove-reweighted"
 				}
+				if isGarbage(r.ep) { // a value the caller wrote into ITS slice after Refresh had returned
+					locus = pkg + ".Refresh-aliased"
+				}
 				what := fmt.Sprintf("Select returned %q (weight %d) which is not in the current set of %d endpoints", r.ep.Host, r.ep.Weight, len(cur))
 				if eligible == 0 {
 					what += " (no endpoint is eligible: an error was due)"
@@ -644,9 +718,11 @@ func runConcurrent(c caseJ) *oracleViol {
 	// initial set: the first half of the universe plus the anchor
 	init := append([]endpoint.Endpoint{uni[anchor]}, uni[:len(uni)/2+1]...)
 	before := seq.Add(1)
-	if pc, st := guard(func() { s.Refresh(init) }); pc != "" {
+	initArg := refreshArg(init)
+	if pc, st := guard(func() { s.Refresh(initArg) }); pc != "" {
 		return &oracleViol{sig: "C13:" + pc[:5] + "-" + pc[6:] + ":" + locusFromStack(st, pkgOf(c.Sel)+".Refresh"), what: "Refresh panics (" + pc + ")"}
 	}
+	scribble(initArg) // the caller reuses its slice
 	for _, e := range init {
 		open(e.Host, before)
 	}
@@ -721,7 +797,9 @@ func runConcurrent(c caseJ) *oracleViol {
 					open(h, at)
 				}
 			}
-			pc, st = guard(func() { s.Refresh(list) })
+			arg := refreshArg(list)
+			pc, st = guard(func() { s.Refresh(arg) })
+			scribble(arg) // the caller reuses its slice while selections go on
 			at2 := seq.Add(1)
 			for h, m := range member {
 				if m && !in[h] {
@@ -758,6 +836,10 @@ func runConcurrent(c caseJ) *oracleViol {
 					ok = true
 					break
 				}
+			}
+			if !ok && strings.HasPrefix(r.host, garbagePrefix) {
+				return &oracleViol{sig: "C13:not-member:" + pkgOf(c.Sel) + ".Refresh-aliased",
+					what: fmt.Sprintf("a selection concurrent with updates returned %q, a value the caller wrote into its own slice after Refresh had returned: the selector shares the caller's backing array", r.host)}
 			}
 			if !ok {
 				return &oracleViol{sig: "C13:not-member:" + pkgOf(c.Sel) + ".Select-concurrent",
@@ -911,7 +993,10 @@ func cycleLen(u []epJ) int {
 func genSeq(rng *rand.Rand, sel string, ew bool, profile string, maxOps int, reweight bool) caseJ {
 	n := 1 + rng.Intn(7)
 	u := universe(rng, n, profile)
-	c := caseJ{Kind: "seq", Sel: sel, EW: ew, Tag: profile}
+	c := caseJ{Kind: "seq", Sel: sel, EW: ew, Tag: profile, Own: "garbage"}
+	if rng.Intn(2) == 0 {
+		c.Own = "manager"
+	}
 	pick := func() epJ {
 		e := u[rng.Intn(n)]
 		if reweight && rng.Intn(3) == 0 {
@@ -988,13 +1073,19 @@ func genExhaustive(emit func(caseJ), sel string, ew bool, u []epJ, length int, t
 	alpha = append(alpha, opJ{K: "S", Arg: 5, Step: 3, Rep: 1})
 	tail := cycleLen(u) + 2
 	idx := make([]int, length)
+	count := 0
 	for {
 		ops := make([]opJ, 0, length+1)
 		for _, i := range idx {
 			ops = append(ops, alpha[i])
 		}
 		ops = append(ops, opJ{K: "S", Arg: 1, Step: 1, Rep: tail})
-		emit(caseJ{Kind: "seq", Sel: sel, EW: ew, Ops: ops, Tag: tag})
+		own := "garbage"
+		if count%2 == 1 {
+			own = "manager"
+		}
+		count++
+		emit(caseJ{Kind: "seq", Sel: sel, EW: ew, Ops: ops, Tag: tag, Own: own})
 		k := length - 1
 		for k >= 0 {
 			idx[k]++
@@ -1218,6 +1309,11 @@ func (ck *checker) finSeq(c caseJ, rs []stepRes, ans []string) {
 			sels++
 		}
 	}
+	if c.Own == "manager" {
+		ck.res.Histogram["own:manager-style-in-place-updates"]++
+	} else {
+		ck.res.Histogram["own:refresh-slice-overwritten"]++
+	}
 	ck.res.Count(c.Sel+"/"+ew+"/"+implS, "seq:"+c.Sel+":"+ew+":"+c.Tag, sels > 0 && len(c.Ops) > 1)
 	ck.res.TracesValidated++
 	if v := oracleSeq(c, rs); v != nil {
@@ -1407,6 +1503,20 @@ func main() {
 	for _, sel := range []string{"rr", "random", "modhash"} {
 		cases = append(cases, caseJ{Kind: "seq", Sel: sel, EW: true, Tag: "d2", Ops: []opJ{
 			{K: "A", Eps: fixedEps(0)}, {K: "S", Rep: 2}, {K: "R", Eps: fixedEps(5, -200)}, {K: "S", Rep: 3}}})
+	}
+	// 2b. ownership of the Refresh argument (always run): the caller overwrites its buffer; the
+	// endpointmanager sequence (in-place delete from the caller's list, then Remove), first a
+	// non-last endpoint, then the last one, then the remaining one
+	for _, sel := range []string{"rr", "random", "modhash", "conhash"} {
+		for _, ew := range []bool{false, true} {
+			u := fixedEps(100, 100, 100)
+			for _, own := range []string{"garbage", "manager"} {
+				cases = append(cases, caseJ{Kind: "seq", Sel: sel, EW: ew, Tag: "ownership", Own: own, Ops: []opJ{
+					{K: "R", Eps: u}, {K: "S", Step: 1, Rep: 64}, {K: "D", Eps: u[:1]}, {K: "S", Step: 1, Rep: 64},
+					{K: "D", Eps: u[2:]}, {K: "S", Step: 1, Rep: 64}, {K: "D", Eps: u[1:2]}, {K: "S", Step: 1, Rep: 4},
+					{K: "A", Eps: u[2:]}, {K: "S", Step: 1, Rep: 8}}})
+			}
+		}
 	}
 	// 3. random histories, every strategy, weighted and not, every weight profile
 	nseq := 500
